@@ -124,6 +124,14 @@ func C05(c *core.Ctx) {
 	strad := map[string]int{}
 	for i, evs := range good {
 		for _, ev := range evs {
+			if ev["a"] == "GroupEdge" {
+				k := fmt.Sprintf("edge spb%d/%s/%d:", goodJobs[i].cfg.SPB, goodJobs[i].cfg.Extra, goodJobs[i].cfg.Size>>20)
+				if ev["edge"] == true {
+					strad[k+"reached"]++
+				} else {
+					strad[k+"not-reached"]++
+				}
+			}
 			if ev["a"] == "Straddle" {
 				k := fmt.Sprintf("spb%d/%s/%d:", goodJobs[i].cfg.SPB, goodJobs[i].cfg.Extra, goodJobs[i].cfg.Size>>20)
 				if ev["straddle"] == true {
